@@ -104,6 +104,7 @@ func c08(c *core.Check) {
 		"processor-dispatch": "dispatch key = IDL name placeholder, registered once per function",
 		"processor-reply":    "REPLY framing on the success path; EXCEPTION on read failure and undeclared error; one case per throws; oneway silent",
 		"processor-unknown":  "unknown method: Skip(STRUCT) + EXCEPTION; base processor embedded iff extends",
+		"throws-same-type-compiles": "the exception dispatch still compiles when two throws fields share a type",
 	})
 	for _, k := range []string{"client-call", "processor-dispatch", "processor-reply", "processor-unknown"} {
 		c.Min(k, 1)
@@ -346,8 +347,55 @@ func procEvents(n ast.Node) []string {
 	return out
 }
 
+// c08sameTypeThrows: two throws fields may name the same exception type (`throws (1: E a, 2: E b)` is legal IDL). The
+// rendering is re-checked with the type of every later throws field identified with the first one: whatever construct
+// dispatches on the exception type must still compile (a type switch with one case per field does not: duplicate case).
+func c08sameTypeThrows(agg *aggregate, r *rendered) {
+	k := r.U.key()
+	var labels []string
+	ast.Inspect(r.P.File, func(n ast.Node) bool {
+		ts, ok := n.(*ast.TypeSwitchStmt)
+		if !ok {
+			return true
+		}
+		var ls []string
+		for _, cc := range ts.Body.List {
+			for _, e := range cc.(*ast.CaseClause).List {
+				ls = append(ls, rules.ExprText(e))
+			}
+		}
+		if len(ls) >= 2 && len(labels) == 0 {
+			labels = ls
+		}
+		return true
+	})
+	if len(labels) < 2 {
+		return
+	}
+	agg.check("throws-same-type-compiles", k)
+	// labels that mention nothing but the field's type collapse into one when the types are equal; Go rejects a type
+	// switch with two identical cases
+	typeOnly := true
+	for _, l := range labels {
+		if !strings.Contains(l, "typeName") && !strings.Contains(l, "TypeName") {
+			typeOnly = false
+		}
+	}
+	// the template handles equal types when it compares them: the abstract rendering then carries a choice `eq:<type a>==<type b>`
+	compares := false
+	for ck := range r.R.Choices {
+		if strings.HasPrefix(ck, "eq:") && strings.Contains(ck, "throws") && strings.Contains(ck, "ypeName") {
+			compares = true
+		}
+	}
+	if typeOnly && !compares {
+		agg.fail("throws-same-type-compiles", k, "under ["+r.R.Valuation+"]: the processor dispatches a handler error with a type switch that has one case per throws field, labelled with the field's type only ("+strings.Join(labels, ", ")+"), and nothing compares the types: two throws fields of the same exception type give two identical cases, thriftgo exits 0 and the generated package does not compile (duplicate case in type switch)")
+	}
+}
+
 func c08processor(agg *aggregate, r *rendered, fns []funcInfo) {
 	k := r.U.key()
+	c08sameTypeThrows(agg, r)
 	extends := r.R.Choices["nonempty:x.Service.Extends"] == 1
 	// dispatch registration
 	agg.check("processor-dispatch", k)
@@ -477,8 +525,15 @@ func c08processor(agg *aggregate, r *rendered, fns []funcInfo) {
 			}
 			return true
 		})
-		if cases != f.NThrows || assigns != f.NThrows {
-			fail(fmt.Sprintf("%d exception case(s) with %d result assignment(s), the function throws %d", cases, assigns, f.NThrows))
+		// throws fields whose exception type equals an earlier one share that one's case (a type can only have one)
+		distinct := f.NThrows
+		for ck, cv := range r.R.Choices {
+			if strings.HasPrefix(ck, "eq:") && strings.Contains(ck, fmt.Sprintf("functions_%d__throws", f.Idx)) && strings.Contains(ck, "ypeName") && cv == 1 {
+				distinct--
+			}
+		}
+		if cases != distinct || assigns != distinct {
+			fail(fmt.Sprintf("%d exception case(s) with %d result assignment(s), the function throws %d exception(s) of %d distinct type(s)", cases, assigns, f.NThrows, distinct))
 		}
 		if f.NThrows > 0 && !defaultExc {
 			fail("an undeclared handler error is not answered with an EXCEPTION message")
